@@ -142,7 +142,7 @@ class FetchAttributes(Contract):
         f = F(ctx)
         uid = sym("uid", "uid")
         un, node, kids = entity_node(ctx, f, ctx.case, uid)
-        ctx.env.update(f=f, uid=uid, node=node, fta=lambda I, a, kw: (I.event("fetch_type_attributes", handle=a[-1]), PDict({"from-type": True}))[1],
+        ctx.env.update(typed_attr_values=True, f=f, uid=uid, node=node, fta=lambda I, a, kw: (I.event("fetch_type_attributes", handle=a[-1]), PDict({"from-type": True}))[1],
                        fpg=lambda I, a, kw: (I.event("fetch_property_groups"), PDict({"from-groups": True}))[1])
         return [H5Reader, f.file, uid, ctx.case], {}
 
@@ -158,6 +158,11 @@ class FetchAttributes(Contract):
         for name in ("Allow delete", "ID", "Name"):
             present = f.pre.attr(node, A(name)) != 0
             ctx.oblige(f"attribute-{name.replace(' ', '-')}-reported-iff-stored", z3.If(present, name in ent.items, name not in ent.items))
+            if name in ent.items:
+                v = ent.items[name]
+                got = v.term if isinstance(v, Opaque) and getattr(v, "term", None) is not None else (to_z3(v) if isinstance(v, SV) else None)
+                ctx.oblige(f"attribute-{name.replace(' ', '-')}-is-reported-as-stored", got is not None and z3.Implies(present, got == f.pre.attr(node, A(name))),
+                           note="the reported value is not the stored one (altered on the way in)")
         ctx.oblige("marked-as-stored", ent.items.get("on_file") is True)
         has_type = f.pre.link(node, A("Type")) != 0
         ctx.oblige("type-attributes-read-iff-a-type-link-exists", z3.If(has_type, tattrs.items["entity_type"].items.get("from-type") is True if isinstance(tattrs.items["entity_type"], PDict) else False, isinstance(tattrs.items["entity_type"], PDict) and len(tattrs.items["entity_type"].items) == 0))
